@@ -119,6 +119,7 @@ type runCase struct {
 	yield    func()
 	// hooks of the interruption / fault runs
 	persist   string // violation key to report if the process dies
+	baseG     int    // goroutines when the case started
 	seen      int
 	intervene func() core.MetadataState
 	finish    func(j *simrun.Job) bool
